@@ -6,7 +6,10 @@ V = os.path.dirname(os.path.dirname(os.path.abspath(__file__)))
 BASE_NOTE = ("Trusted base: rustc's type checker, MIR construction and const evaluation (nightly in this image); the "
              "elfacts driver's faithful dump of MIR; the spec tables in /verif/vflib/rules (transcribed from the "
              "specifications and quoted in the evidence); dependencies (bitcoin_hashes, secp256k1-zkp, bech32, serde) "
-             "are not analysed. Only the named structural clauses are decided, not the behaviour as a whole.")
+             "are not analysed. Only the named structural clauses are decided, not the behaviour as a whole. "
+             "Besides its own rules every check evaluates, as rules named D.<Q>.<rule>, the instances of other properties' rules whose "
+             "subject is a crate function reached (resolved call graph) from this property's anchors and not itself an anchor "
+             "(vflib/deps.py, DESIGN 9.8); the evidence lists the reached helpers that no rule decides (trusted).")
 
 CLAIMS = {
     "C02": dict(
@@ -14,7 +17,8 @@ CLAIMS = {
         text=("Decides the structural clauses of C02 for all inputs at once: the exact ordered list of values fed to the "
               "sha256d engine by txid/wtxid/block_hash, that every non-witness field of the transaction/header types is "
               "read on the way (monomorphic call-graph field coverage) and no witness field is, that the non-witness "
-              "branch of Transaction's encoder equals the txid preimage, and that clear_witness writes exactly the "
+              "branch of Transaction's encoder equals the txid preimage, that the TxIn writer folds both flag bits independently and the "
+              "TxOut/AssetIssuance/confidential writers write every field (C01's writer rules evaluated here), and that clear_witness writes exactly the "
               "fields outside the block hash. Digest arithmetic is trusted."),
         technique="MIR event-sequence extraction + transitive field-read coverage on the instance call graph",
         design_ref="§4 C02"),
@@ -68,7 +72,8 @@ CLAIMS = {
         category="other",
         text=("Decides C13 by a purity argument checked on the code: every use of all-prevouts data in the taproot algorithm is "
               "dominated by the !ANYONECANPAY edge and Prevouts::get_all is evaluated on every such query whatever the cache holds (so "
-              "Prevouts::One suffices under ANYONECANPAY and is an error otherwise, independently of earlier queries), the "
+              "Prevouts::One suffices under ANYONECANPAY and is an error otherwise, independently of earlier queries), witness_mut "
+              "writes nothing itself, the "
               "transitive field read-set of the three cache builders is disjoint from the only place the API hands out mutably "
               "(the script witness via witness_mut), no other public method returns &mut, the caches are written only by new() and by "
               "get_or_insert_with in their accessor, and the Prevouts decision tables are as specified. Hence every cached value is "
@@ -177,7 +182,7 @@ CLAIMS = {
               "sequence lengths agree; every paired (de)serializer agrees on human-readable polarity and data-model shape, derived enums are externally tagged; sighash string tables "
               "are mutually inverse bijections and PsbtSighashType composes them with matching numeric tables; reversed-hex Display matches "
               "FromStr's reverse; OutPoint prefix literal length equals the parser's slice offset; PSET text = base64 over the consensus codec "
-              "both ways. Value-level equality after a round trip is not evaluated. Found F20 (fixed) and F21 (known finding)."),
+              "both ways; hand-written string/bytes visitors fail only where a conversion they call fails. Value-level equality after a round trip is not evaluated. Found F20 (fixed) and F21 (known finding)."),
         technique="writer/reader table extraction from MIR (derive-generated and hand-written impls) + exhaustive presence/decision tables",
         design_ref="§4 C20"),
     "C09": dict(
@@ -188,7 +193,8 @@ CLAIMS = {
               "that blinder for the commitment and the explicit-value proof, and clears the list immediately before its only Ok exit; with "
               "several own outputs it hides/restores the last output's blinder_index around the nested non-last call and empties its input "
               "list; ValueBlindingFactor::last/AddAssign/Neg case tables; blind_checks selection as a 16-case decision table; surjection domain "
-              "order and presence conditions agree with verify_tx_amt_proofs; every field is_fully_blinded reads is written per blinded output. "
+              "order and presence conditions agree with verify_tx_amt_proofs; the domain entry built per input (surjection_target / "
+              "Asset::into_asset_gen decision tables: any non-null asset form of a non-owned input is accepted); every field is_fully_blinded reads is written per blinded output. "
               "NOT decided: balance and proof verification of the result, unblinding, any order/permutation claim beyond the fact that the "
               "published scalars are summed commutatively."),
         technique="structured-listing extraction + ordered effect rules + exhaustive predicate decision tables + sibling agreement",
@@ -227,7 +233,8 @@ CLAIMS = {
               "Address::from_script takes the payload from the byte range the guarding predicate establishes and dispatches in the "
               "specified order; builders emit the opcodes the predicates test at the same positions; the push-size thresholds of "
               "push_slice, the minimal-push thresholds of Instructions::next and the PUSHDATA operand widths agree; small-integer, "
-              "OP_TRUE/OP_FALSE and verify-folding tables. Script-number arithmetic and byte-level builder/iterator round trips are not decided."),
+              "OP_TRUE/OP_FALSE and verify-folding tables; for the clause that an address's text form parses back, C06's rules "
+              "(payload layouts, program-length and padding tables of the blech32 reader, prefix matching) are evaluated here as well. Script-number arithmetic and byte-level builder/iterator round trips are not decided."),
         technique="exact truth tables of boolean predicates (all valuations of their atoms) + table agreement between sibling builder/parser",
         design_ref="§4 C16, Appendix D"),
     "C11": dict(
@@ -296,7 +303,7 @@ def main():
              "kind_free_text": "Python rule engine over the facts: CFG/dominators, provenance terms, guards, field read/write sets, decision tables; per-property rules in vflib/rules"},
         ],
         "checks": checks,
-        "notes": "Static analysis only: no library code is executed. Exit codes: 0 held, 1 violation (VIOLATION line), 2 checker cannot decide (fail closed). Known findings in KNOWN_FINDINGS.txt.",
+        "notes": "Static analysis only: no library code is executed. Each check = the property's own rule module + supporting obligations adopted from other modules for helpers its anchors call (DESIGN 9.8). Exit codes: 0 held, 1 violation (VIOLATION line), 2 checker cannot decide (fail closed). Known findings in KNOWN_FINDINGS.txt.",
         "not_applicable": na,
     }
     json.dump(m, open(os.path.join(V, "MANIFEST.json"), "w"), indent=1)
